@@ -850,6 +850,9 @@ package url
 //@ func (*SearchParams).QueryEscape
 //@   requires s != nil && s.url != nil && s.url.parser != nil && okOpts(s.url.parser) && output != nil
 //@   modifies bufv(output)
+//@   ensures s.url.parser.opts.encodingOverride == nil ==> bufv(output) == old(bufv(output)) + specFormEscFrom(st, 0)   [C11 form-serialize-escape]
+//@   loop 1 modifies bufv(output)
+//@   loop 1 invariant s.url.parser.opts.encodingOverride == nil ==> bufv(output) + specFormEscFrom(st, $i) == old(bufv(output)) + specFormEscFrom(st, 0)
 //@ func (*SearchParams).String
 //@   requires spOK(s) && s.url != nil && s.url.parser != nil && okOpts(s.url.parser)
 //@ func (*SearchParams).update
@@ -863,8 +866,19 @@ package url
 //@   modifies s.params, s.params[..]
 //@   ensures spOK(s)
 //@   ensures arr(s.params) == old(arr(s.params)) || fresh(s.params)
+//@   ensures len(s.params) == specFormCnt(query, specSplitN(query, "&"))   [C11 form-parse]
+//@   ensures forall j int :: (0 <= j && j < specSplitN(query, "&") && specFormPart(query, j) != "") ==>
+//@           (s.params[specFormCnt(query, j)].Name == formDec(s.url.parser, specFormRawName(specFormPart(query, j)))
+//@            && s.params[specFormCnt(query, j)].Value == formDec(s.url.parser, specFormRawValue(specFormPart(query, j))))   [C11 form-parse]
 //@   loop 1 modifies s.params, s.params[..]
 //@   loop 1 invariant spOK(s) && (arr(s.params) == old(arr(s.params)) || fresh(s.params)) && (arr(s.params) == pre(arr(s.params)) || freshL(s.params))
+//@   loop 1 invariant len(p) == specSplitN(query, "&") && (forall k int :: 0 <= k && k < len(p) ==> p[k] == specFormPart(query, k)) && fresh(p)
+//@   loop 1 invariant len(s.params) == specFormCnt(query, $i)
+//@   loop 1 invariant forall j int :: (0 <= j && j < $i) ==> (0 <= specFormCnt(query, j) && specFormCnt(query, j) <= specFormCnt(query, j + 1) && specFormCnt(query, j + 1) <= specFormCnt(query, $i))
+//@   loop 1 invariant forall j int :: (0 <= j && j < $i && specFormPart(query, j) != "") ==>
+//@           s.params[specFormCnt(query, j)].Name == formDec(s.url.parser, specFormRawName(specFormPart(query, j)))
+//@   loop 1 invariant forall j int :: (0 <= j && j < $i && specFormPart(query, j) != "") ==>
+//@           s.params[specFormCnt(query, j)].Value == formDec(s.url.parser, specFormRawValue(specFormPart(query, j)))
 //@ func (*SearchParams).Append
 //@   requires spOK(s) && (s.url != nil ==> (wf(s.url) && s.url.searchParams == s))
 //@   modifies s.params, s.params[..], s.url.query
@@ -903,8 +917,18 @@ package url
 //@   modifies s.params, s.params[..], s.url.query, all(s.params).Value
 //@   ensures spOK(s) && (s.url != nil ==> wf(s.url))   [C02]
 //@   ensures synced(s)   [C12 write-through]
+//@   ensures (forall k int :: 0 <= k && k < old(len(s.params)) ==> old(s.params[k].Name) != name) ==> (len(s.params) == old(len(s.params)) + 1
+//@           && s.params[len(s.params) - 1].Name == name && s.params[len(s.params) - 1].Value == value
+//@           && (forall k int :: 0 <= k && k < old(len(s.params)) ==> s.params[k] == old(s.params[k])))   [C11 set-appends-when-absent]
+//@   ensures forall a int, b int :: (0 <= a && a < b && b < len(s.params) && s.params[a].Name == name) ==> s.params[b].Name != name   [C11 set-leaves-one]
+//@   ensures forall k int :: (0 <= k && k < len(s.params) && s.params[k].Name == name) ==> s.params[k].Value == value   [C11 set-value]
 //@   loop 1 modifies s.params[..], all(s.params).Value
 //@   loop 1 invariant s.params == pre(s.params)
+//@   loop 1 invariant isSet == (exists j int :: 0 <= j && j < $i && pre(s.params[j].Name) == name)
+//@   loop 1 invariant !isSet ==> (len(params) == $i && (forall k int :: 0 <= k && k < $i ==> params[k] == pre(s.params[k])))
+//@   loop 1 invariant forall a int, b int :: (0 <= a && a < b && b < len(params) && params[a].Name == name) ==> params[b].Name != name
+//@   loop 1 invariant forall k int :: (0 <= k && k < len(params) && params[k].Name == name) ==> params[k].Value == value
+//@   loop 1 invariant isSet ==> (exists k int :: 0 <= k && k < len(params) && params[k].Name == name)
 //@   loop 1 invariant arr(params) == arr(s.params) && off(params) == off(s.params) && cap(params) == cap(s.params) && 0 <= len(params) && len(params) <= $i
 //@   loop 1 invariant forall k int :: 0 <= k && k < len(params) ==> params[k] != nil
 //@   loop 1 invariant forall k int :: $i <= k && k < len(s.params) ==> (s.params[k] != nil && s.params[k] == pre(s.params[k]))
@@ -912,6 +936,9 @@ package url
 //@   requires spOK(s) && (s.url != nil ==> (wf(s.url) && s.url.searchParams == s))
 //@   modifies s.params[..], s.url.query
 //@   ensures spOK(s) && (s.url != nil ==> wf(s.url))   [C02]
+//@   ensures len(s.params) == old(len(s.params)) && s.params == old(s.params)   [C11]
+//@   ensures forall a int, b int :: (0 <= a && a < b && b < len(s.params)) ==> !(s.params[b].Name < s.params[a].Name)   [C11 sorted-by-name]
+//@   ensures forall k int :: 0 <= k && k < len(s.params) ==> (exists j int :: 0 <= j && j < len(s.params) && s.params[k] == old(s.params[j]))   [C11]
 //@   ensures synced(s)   [C12 write-through]
 //@ func (*SearchParams).Sort$1
 //@   requires spOK(s) && 0 <= i && i < len(s.params) && 0 <= j && j < len(s.params)
@@ -920,6 +947,8 @@ package url
 //@   requires spOK(s) && (s.url != nil ==> (wf(s.url) && s.url.searchParams == s))
 //@   modifies s.params[..], s.url.query
 //@   ensures spOK(s) && (s.url != nil ==> wf(s.url))   [C02]
+//@   ensures len(s.params) == old(len(s.params)) && s.params == old(s.params)   [C11]
+//@   ensures forall a int, b int :: (0 <= a && a < b && b < len(s.params)) ==> !(s.params[b].Name + s.params[b].Value < s.params[a].Name + s.params[a].Value)   [C11 sorted-by-name-value]
 //@   ensures synced(s)   [C12 write-through]
 //@ func (*SearchParams).SortAbsolute$1
 //@   requires spOK(s) && 0 <= i && i < len(s.params) && 0 <= j && j < len(s.params)
@@ -946,6 +975,8 @@ package url
 
 //@ func (*parser).DecodePercentEncoded
 //@   requires p != nil
+//@   ensures s == "" ==> result == ""
+//@   loop 1 invariant i == 0 ==> bufv(sb) == ""
 //@   loop 1 invariant 0 <= i && i <= len(bytes) && len(bytes) == len(s) && fresh(bytes) && off(bytes) == 0
 //@   loop 1 decreases len(bytes) - i
 
